@@ -167,7 +167,11 @@ InitConn(dv, qcap) ==
   [st |-> "none", dv |-> dv, qcap |-> qcap, inb |-> <<>>, mode |-> "select",
    cur |-> Nil, cmd |-> FALSE, ab |-> FALSE, q |-> <<>>, qclosed |-> FALSE,
    credit |-> 0, age |-> 0, wage |-> 0, tasks |-> NoTasks, wrote |-> <<>>,
-   lost |-> {}, yielded |-> <<>>]
+   lost |-> {}, yielded |-> <<>>,
+   np |-> 1,        \* pieces the transport takes to accept one frame (partial writes)
+   pd |-> 0,        \* pieces of the frame in `cur` already on the wire
+   torn |-> FALSE,  \* the connection ended with a partial frame on the wire
+   live |-> FALSE]  \* counted in the server's num_connections (Connection::run .. Drop)
 
 ChanClosed(s) == s.st = "closed" \/ s.qclosed
 
@@ -210,12 +214,17 @@ TaskStep(s, r) ==
               IN TryEnq([s EXCEPT !.tasks[r] = [t1 EXCEPT !.status = st2, !.n = @ + 1],
                                   !.yielded = Append(@, resp)], r, resp)
 
-Close(s) == [s EXCEPT !.st = "closed", !.mode = "done", !.cur = Nil, !.q = <<>>]
+Close(s) == [s EXCEPT !.st = "closed", !.mode = "done", !.cur = Nil, !.q = <<>>,
+                      !.torn = @ \/ s.pd > 0, !.pd = 0]
 
 \* write_response_to_stream succeeded; idle timer reset when the queue is empty
+\* write_all: the transport may accept the frame in several pieces; the
+\* peer's readiness (credit) is needed to begin a frame
+WritePiece(s) == [s EXCEPT !.pd = @ + 1, !.credit = IF s.pd = 0 THEN @ - 1 ELSE @]
+
 Written(s, next) ==
-  LET s1 == [s EXCEPT !.wrote = Append(@, s.cur), !.cur = Nil,
-                      !.credit = @ - 1, !.mode = next]
+  LET s1 == [s EXCEPT !.wrote = Append(@, s.cur), !.cur = Nil, !.pd = 0,
+                      !.credit = IF s.pd = 0 THEN @ - 1 ELSE @, !.mode = next]
   IN IF s1.q = <<>> THEN [s1 EXCEPT !.age = 0] ELSE s1
 
 \* process_read_request
@@ -238,14 +247,16 @@ LoopBranch(s) ==
          ELSE "none"
   ELSE IF s.mode = "write" THEN
          IF s.ab THEN "werr"
-         ELSE IF s.credit > 0 THEN "write"
+         ELSE IF s.credit > 0 \/ s.pd > 0
+              THEN (IF s.pd < s.np - 1 THEN "wpart" ELSE "write")
          ELSE IF s.wage >= 2 THEN "wtimeout"
          ELSE "none"
   ELSE IF s.mode = "flush" THEN
          IF s.q # <<>> THEN "take" ELSE "flushed"
   ELSE IF s.mode = "flushwrite" THEN
          IF s.ab THEN "werr"
-         ELSE IF s.credit > 0 THEN "write"
+         ELSE IF s.credit > 0 \/ s.pd > 0
+              THEN (IF s.pd < s.np - 1 THEN "wpart" ELSE "write")
          ELSE IF s.wage >= 2 THEN "wtimeout"
          ELSE "none"
   ELSE "none"
@@ -257,9 +268,11 @@ LoopStep(s) ==
                                !.mode = IF s.mode = "flush" THEN "flushwrite" ELSE "write"]
     [] b = "idle" -> Close(s)
     [] b = "read" -> ReadOne(s)
+    [] b = "wpart" -> WritePiece(s)
     [] b = "write" -> Written(s, IF s.mode = "flushwrite" THEN "flush" ELSE "select")
     [] b \in {"werr", "wtimeout"} ->
-         IF s.mode = "flushwrite" THEN [s EXCEPT !.cur = Nil, !.mode = "flush"]
+         IF s.mode = "flushwrite"
+         THEN [s EXCEPT !.cur = Nil, !.mode = "flush", !.torn = @ \/ s.pd > 0, !.pd = 0]
          ELSE Close(s)
     [] b = "flushed" -> Close(s)
     [] OTHER -> s
@@ -302,7 +315,12 @@ Settle(s) ==
 \* ---- environment stimuli (no settling here) ----
 TailPartial(s) == s.inb # <<>> /\ s.inb[Len(s.inb)].t = "partial"
 
-EnvOpen(s) == [s EXCEPT !.st = "open"]
+\* stream.rs: an accepted connection whose setup future succeeded and that
+\* found the server below max_concurrent_connections gets a Connection
+\* (counted from run() to Drop); a failed setup or a refusal at the limit
+\* just drops the stream
+EnvOpen(s) == [s EXCEPT !.st = "open", !.live = TRUE]
+EnvNoConn(s) == [s EXCEPT !.st = "closed", !.mode = "done"]
 EnvSend(s, what, r, svc) ==       \* what \in query | partial | reply | short
   LET it == [t |-> what, r |-> r, svc |-> svc]
       s1 == [s EXCEPT !.inb = Append(@, it)]
@@ -347,6 +365,13 @@ EachOnce(s) ==
            (SeqSet(s.wrote) \cup SeqSet(s.q) \cup {s.cur} \cup Pendings(s) \cup s.lost)
 NoneLost(s) == s.lost = {}
 QueueBounded(s) == Len(s.q) <= s.qcap
+\* Framed: what is on the wire is a sequence of whole frames, possibly
+\* followed by the first pieces of the one frame that is being written;
+\* no other frame starts before that one is complete, and a torn frame is
+\* only ever the last thing a connection sent
+WireFramed(s) ==
+  /\ s.pd > 0 => (s.mode \in {"write", "flushwrite"} /\ s.cur # Nil /\ s.pd < s.np)
+  /\ s.torn => (s.st = "closed" \/ s.mode \in {"flush", "flushwrite"})
 \* responses carry the key of a request that was really received on this
 \* connection, and only "formerr" for QR=1 input
 IdPreserved(s) ==
